@@ -22,6 +22,7 @@ enum Entry {
   E_TO_PC,          // DecodeBufferToGeometry(PointCloud*)
   E_SKIP,           // Decode*FromBuffer (by stream type) with skip transform
   E_ANIM,           // KeyframeAnimationDecoder::Decode
+  E_TWICE,          // DecodeBufferToGeometry twice into the same geometry object
   E_NUM
 };
 const char *EntryName(int e);
@@ -68,6 +69,8 @@ struct CallResult {
   uint64_t last_pc = 0;  // where the step budget ran out
   uint64_t alloc_pcs[12];
   int n_alloc_pcs = 0;
+  uint64_t loop_pcs[12];
+  int n_loop_pcs = 0;
   Json ToJson() const;
 };
 
